@@ -111,6 +111,22 @@ func genCase(r *rand.Rand, idx int) *ccase {
 			}
 		}
 	}
+	for _, k := range ep.Kinds {
+		if (k == rdcat.KPromSamples || k == rdcat.KStreams || k == rdcat.KMatrix || k == rdcat.KProfPoints) && r.Intn(5) == 0 {
+			// one label set stored under several fingerprints, in every statement of the request
+			c.DB.Twist, c.DB.Target = rdcat.TwTwins, -1
+			if r.Intn(4) != 0 {
+				c.DB.Mode = "ok"
+			}
+			if c.DB.Shape == "empty" || c.DB.Shape == "one" {
+				c.DB.Shape = "batch"
+			}
+			if r.Intn(3) != 0 {
+				c.Gen = rdcat.GenCase{Req: ep.Canon, Endpoint: ep.Name, QueryShape: "canonical"}
+			}
+			break
+		}
+	}
 	if c.DB.Mode == "err-row" || c.DB.Mode == "cancel-row" {
 		c.DB.ErrAt = []int{0, 1, 2, 50, 99, 100, 101, 5000}[r.Intn(8)]
 	}
